@@ -31,7 +31,8 @@ func ConnPipe(a Args) {
 		}
 		// stable keys across pipelines so that hits happen
 		for i, k := range keys {
-			w.SetKey(k, []byte(fmt.Sprintf("key%d", i)))
+			// (a key is not a format string, and its bytes need not be ASCII)
+			w.SetKey(k, []byte(fmt.Sprintf("k%%d%d\xc3\xa9%%s", i)))
 		}
 		port := ports[rng.Intn(len(ports))]
 		cl, err := wire.Dial(st.Socks[port], text)
